@@ -375,7 +375,7 @@ def main(argv=None) -> int:
     args = ap.parse_args(argv)
 
     if os.environ.get("PYTHONHASHSEED") != "0":
-        env = dict(os.environ, PYTHONHASHSEED="0")
+        env = dict(os.environ, PYTHONHASHSEED="0", PYTHONWARNINGS="ignore")
         os.execve(sys.executable, [sys.executable, "-m", "pbt.run", *(argv or sys.argv[1:])], env)
 
     try:
